@@ -62,3 +62,28 @@ func (h *InitPP) Init() error {
 	h.SeenAtInit = fmt.Sprintf("dep-set=%v dep-initialised=%v cfg=%q", h.Dep != nil, depInit, h.Cfg)
 	return nil
 }
+
+// EmbedIfaceHolder takes its dependency through an embedded interface that carries the tag itself (the
+// decorator layout `type Cached struct { Store `wire:"..."` }`): a point like any other, set - and the
+// (lazy) component behind it initialised - before the holder's own Init.
+type EmbedIfaceHolder struct {
+	IA         `wire:"mix-dep"`
+	run        *Run
+	SeenAtInit string
+	Inits      int
+}
+
+func (h *EmbedIfaceHolder) Naming() string { return "embed-iface-holder" }
+func (h *EmbedIfaceHolder) Bind(r *Run)    { h.run = r }
+func (h *EmbedIfaceHolder) Init() error {
+	depInit := false
+	for _, e := range h.run.Log.Events() {
+		if e.Kind == "init" && e.Who == "mix-dep" {
+			depInit = true
+		}
+	}
+	h.Inits++
+	h.SeenAtInit = fmt.Sprintf("dep-set=%v dep-initialised=%v", h.IA != nil, depInit)
+	h.run.Log.Add("init", "embed-iface-holder")
+	return nil
+}
